@@ -781,7 +781,7 @@ Local Notation denotes := (PresetsProofs.denotes K k0 k1 kadd kmul kopp kzero M 
 Lemma denotes_commutes : forall m w A S, denotes m w A -> meq (m_comm A S) m_zero ->
   forall h, prepare true (lattice_of m (fst w)) = Done h -> meq (m_comm (cp h) S) m_zero.
 Proof.
-  intros m w A S (_ & h' & E & HA) H h Eh. rewrite E in Eh. inversion Eh; subst h'.
+  intros m w A S (_ & (h' & E & HA) & _) H h Eh. rewrite E in Eh. inversion Eh; subst h'.
   eapply meq_trans; [apply comm_meq; [exact HA|apply meq_refl]|exact H].
 Qed.
 
